@@ -575,8 +575,19 @@ func builtinDateSetYear(call FunctionCall) Value {
 	return date.Value()
 }
 
+// builtinDateBeforeSetYear is builtinDateBeforeSet for setFullYear and
+// setUTCFullYear, which start from +0 when the date is invalid (15.9.5.40, 15.9.5.41 step 1).
+func builtinDateBeforeSetYear(call FunctionCall, timeLocal bool) (*object, *dateObject, *ecmaTime, []int) {
+	obj := call.thisObject()
+	if date := dateObjectOf(call.runtime, obj); date.isNaN {
+		date.Set(0)
+		obj.value = date
+	}
+	return builtinDateBeforeSet(call, 3, timeLocal)
+}
+
 func builtinDateSetFullYear(call FunctionCall) Value {
-	obj, date, ecmaTime, value := builtinDateBeforeSet(call, 3, true)
+	obj, date, ecmaTime, value := builtinDateBeforeSetYear(call, true)
 	if ecmaTime == nil {
 		return NaNValue()
 	}
@@ -595,7 +606,7 @@ func builtinDateSetFullYear(call FunctionCall) Value {
 }
 
 func builtinDateSetUTCFullYear(call FunctionCall) Value {
-	obj, date, ecmaTime, value := builtinDateBeforeSet(call, 3, false)
+	obj, date, ecmaTime, value := builtinDateBeforeSetYear(call, false)
 	if ecmaTime == nil {
 		return NaNValue()
 	}
